@@ -48,10 +48,14 @@ fn check_budget(p: &CaoCompiledProgram, n: u64, t: Option<u64>, unbounded: Optio
             format!("budget {n}: more than {n} instructions were dispatched (overrun detected in activation depth {d})"),
         ));
     }
-    if out.panic.is_some() {
-        // totality is C04's business
-        ctx.count("discarded_panic", 1);
-        return None;
+    if let Some(p) = &out.panic {
+        // the dry run of this program did not panic (such cases are discarded before the sweep):
+        // a panic that appears under one particular budget is the budget changing the outcome
+        ctx.count("panics_under_a_budget", 1);
+        return Some((
+            json!({"oracle": "budget-makes-the-run-panic"}),
+            format!("budget {n}: the run panicked ({} at {}) although the same program runs to its end under the dry run's budget", p.msg, panic_site(p)),
+        ));
     }
     let timed_out = innermost(&out.result) == "Timeout";
     if timed_out {
